@@ -378,11 +378,58 @@ def consolidate_part(ctx):
         ctx.compare("consolidate-model-vs-suds", meta, {"prefixes": real_prefixes, "locals": real_locals}, model)
 
 
+def simple_type_renderings(ctx):
+    """Named versus anonymous SIMPLE types: an element whose type is a restriction of a builtin behaves the same
+    whether the restriction is a named top-level simpleType or written inline, and as the builtin's rules say."""
+    import datetime
+    import decimal
+    cases = [("boolean", True, "true", "false", False), ("int", 42, "42", "7", 7),
+             ("decimal", decimal.Decimal("1.5"), "1.5", "2.25", decimal.Decimal("2.25")),
+             ("date", datetime.date(2001, 2, 3), "2001-02-03", "1999-12-31", datetime.date(1999, 12, 31)),
+             ("string", "s", "s", "t", "t")]
+    results = {}
+    for style in ("named", "anonymous"):
+        decl, members = [], []
+        for i, c in enumerate(cases):
+            if style == "named":
+                decl.append('<xsd:simpleType name="R%d"><xsd:restriction base="xsd:%s"/></xsd:simpleType>' % (i, c[0]))
+                members.append('<xsd:element name="m%d" type="x:R%d"/>' % (i, i))
+            else:
+                members.append('<xsd:element name="m%d"><xsd:simpleType><xsd:restriction base="xsd:%s"/>'
+                               '</xsd:simpleType></xsd:element>' % (i, c[0]))
+        schema = ('%s<xsd:element name="f"><xsd:complexType><xsd:sequence>%s</xsd:sequence></xsd:complexType>'
+                  '</xsd:element><xsd:element name="fResponse"><xsd:complexType><xsd:sequence>%s</xsd:sequence>'
+                  '</xsd:complexType></xsd:element>' % ("".join(decl), "".join(members), "".join(members)))
+        w = wsdlkit.wsdl_doc(schema, "f", "fResponse")
+        meta = {"stream": "simple-type-renderings", "style": style}
+        ctx.case(common.canon(meta), True)
+        try:
+            env = wsdlkit.envelope_bytes(wsdlkit.client(w, nosend=True).service.f(*[c[1] for c in cases]))
+            froot = xmlread.find1(xmlread.find1(xmlread.parse(env), "Body"), "f")
+            sent = [ch.get("text") for ch in froot["children"]]
+            reply = ('<e:Envelope xmlns:e="%s"><e:Body><fResponse xmlns="%s">%s</fResponse></e:Body></e:Envelope>'
+                     % (xmlread.ENV11, wsdlkit.TNS, "".join("<m%d>%s</m%d>" % (i, c[3], i) for i, c in enumerate(cases))))
+            r = wsdlkit.client(w).service.f(*[c[1] for c in cases], __inject={"reply": reply.encode()})
+            got = [getattr(r, "m%d" % i, None) for i in range(len(cases))]
+            got = [str(g) if isinstance(g, str) else g for g in got]
+        except Exception as e:
+            ctx.fail("a schema with restricted simple types does not work", meta, repr(e), "request and reply")
+            continue
+        results[style] = (sent, [(type(g).__name__, g) for g in got])
+        if sent != [c[2] for c in cases] or [(type(g).__name__, g) for g in got] != [(type(c[4]).__name__, c[4]) for c in cases]:
+            ctx.fail("values of a restricted simple type are not written / read by the rules of the type it restricts",
+                     meta, [sent, repr(got)], [[c[2] for c in cases], repr([c[4] for c in cases])])
+    if len(results) == 2 and results["named"] != results["anonymous"]:
+        ctx.fail("a named and an anonymous rendering of the same simple type behave differently", {"stream":
+                 "simple-type-renderings"}, repr(results["anonymous"]), repr(results["named"]))
+
+
 def run(ctx):
     depsort_part(ctx)
     qualify_part(ctx)
     consolidate_part(ctx)
     renderings_part(ctx)
+    simple_type_renderings(ctx)
     ctx.sample({"graph": [[1, [2, 3]], [2, [1]], [3, []]], "note": "D14 witness graph"})
 
 
